@@ -2,7 +2,7 @@
 import json, os, subprocess, random
 import gen, semrun, impl, t2t, corr, cref
 
-OBLIGATIONS = ['Yalafi.C17_globals_accounted', 'Yalafi.C17_initialState_fresh']
+OBLIGATIONS = ['Yalafi.C17_globals_accounted', 'Yalafi.C17_writers_accounted', 'Yalafi.C17_initialState_fresh']
 
 HERE = os.path.dirname(os.path.dirname(os.path.abspath(__file__)))
 
@@ -27,7 +27,7 @@ GLSDEFS = ('\\gls@defglossaryentry{%(l)s}{name={%(n)s},text={%(t)s},plural={%(t)
 def gen_doc(rng, k):
     """documents that define / observe state: macros, glossary, languages, packages, placeholders, item counters"""
     names = gen.Names(rng)
-    kind = rng.choice(['define', 'use', 'gls-def', 'gls-use', 'lang', 'math', 'items', 'pkg', 'plain', 'theorem', 'cref', 'cref'])
+    kind = rng.choice(['define', 'use', 'gls-def', 'gls-use', 'lang', 'math', 'items', 'pkg', 'plain', 'theorem', 'cref', 'cref', 'lang-unknown', 'lang-option'])
     if kind == 'cref':
         # package cleveref with a sed file that may lack labels the document uses (a stale file)
         c = cref.make(rng, stale=rng.random() < 0.6)
@@ -46,6 +46,12 @@ def gen_doc(rng, k):
     elif kind == 'gls-use':
         src = '%s \\gls{lab} %s \\gls{lab}' % (names.word(), names.word())
         o['pack'] = '*'
+    elif kind == 'lang-unknown':
+        src = '\\usepackage{babel} %s \\foreignlanguage{latin}{%s} \\selectlanguage{klingon} %s \\begin{otherlanguage}{elvish} %s \\end{otherlanguage}' % (
+            names.word(), names.word(), names.word(), names.word())
+    elif kind == 'lang-option':
+        src = '\\usepackage[%s]{babel}\nDies ist ein %s Satz.\n' % (rng.choice(['latin', 'klingon', 'elvish', 'ngerman,latin']), names.word())
+        o['lang'] = 'de'
     elif kind == 'lang':
         src = '\\usepackage[german]{babel} %s "a "o \\selectlanguage{english} %s' % (names.word(), names.word())
     elif kind == 'math':
